@@ -1,0 +1,51 @@
+//go:build verif
+
+// Package verifhook provides named hook points used by external verification
+// tooling.  With the "verif" build tag, At calls Handler if one is installed.
+package verifhook
+
+import (
+	"os"
+	"strconv"
+	"time"
+)
+
+// Handler, if set (before any goroutine that reaches a hook is started), is called
+// at every hook point with the point's name and small integer arguments.  It may
+// block (scheduler gate), record, or yield.
+var Handler func(point string, kv ...int)
+
+// At marks a hook point.
+func At(point string, kv ...int) {
+	if h := Handler; h != nil {
+		h(point, kv...)
+		return
+	}
+	// For built binaries: VERIF_PAUSE_<point>=<milliseconds> pauses at that point.
+	if pauses != nil {
+		if d, ok := pauses[point]; ok {
+			time.Sleep(d)
+		}
+	}
+}
+
+var pauses map[string]time.Duration
+
+func init() {
+	for _, kv := range os.Environ() {
+		const prefix = "VERIF_PAUSE_"
+		if len(kv) > len(prefix) && kv[:len(prefix)] == prefix {
+			for i := len(prefix); i < len(kv); i++ {
+				if kv[i] == '=' {
+					if ms, err := strconv.Atoi(kv[i+1:]); err == nil {
+						if pauses == nil {
+							pauses = make(map[string]time.Duration)
+						}
+						pauses[kv[len(prefix):i]] = time.Duration(ms) * time.Millisecond
+					}
+					break
+				}
+			}
+		}
+	}
+}
